@@ -246,6 +246,10 @@ def report(prop, tier, seed, results, extra, trusted, t0, rebaseline, verbose):
     for l in lines:
         print(l)
     if verbose:
+        for o in sorted(obligations, key=lambda o: -o.get('time_s', 0))[:8]:
+            print('   slow: %.2fs %s [%s] paths=%s' % (o.get('time_s', 0), o['name'], o.get('backend'), o.get('paths')))
+        for r in results:
+            print('   fn: %.2fs %s paths=%s %s' % (r['wall_s'], r['target'], r['paths'], r['stats']))
         for o in obligations:
             if o['status'] != 'proved':
                 print('  ', o['status'], o['name'], o.get('why', ''))
